@@ -29,6 +29,7 @@ import (
 	"github.com/cosmos/cosmos-sdk/simapp/helpers"
 	sdk "github.com/cosmos/cosmos-sdk/types"
 
+	"github.com/ethereum/go-ethereum/accounts/abi"
 	"github.com/ethereum/go-ethereum/common"
 	ethtypes "github.com/ethereum/go-ethereum/core/types"
 	"github.com/ethereum/go-ethereum/crypto"
@@ -43,12 +44,14 @@ import (
 	agentcontract "github.com/teleport-network/teleport/syscontracts/xibc_agent"
 	endpointcontract "github.com/teleport-network/teleport/syscontracts/xibc_endpoint"
 	packetcontract "github.com/teleport-network/teleport/syscontracts/xibc_packet"
+	xibc "github.com/teleport-network/teleport/x/xibc"
 	xibctmtypes "github.com/teleport-network/teleport/x/xibc/clients/light-clients/tendermint/types"
 	clienttypes "github.com/teleport-network/teleport/x/xibc/core/client/types"
 	commitmenttypes "github.com/teleport-network/teleport/x/xibc/core/commitment/types"
 	"github.com/teleport-network/teleport/x/xibc/core/host"
 	packettypes "github.com/teleport-network/teleport/x/xibc/core/packet/types"
 	xibctesting "github.com/teleport-network/teleport/x/xibc/testing"
+	xibctypes "github.com/teleport-network/teleport/x/xibc/types"
 )
 
 type pktAcct struct {
@@ -67,6 +70,7 @@ type pktChain struct {
 	reg map[string][]string
 	// relayer address string -> chain -> the address registered for that chain ("address on the other chain")
 	regAddr map[string]map[string]string
+	restarts int // genesis export -> import restarts so far
 }
 
 type pktSent struct {
@@ -89,6 +93,7 @@ type pktRecvRec struct {
 	proof  []byte
 	height clienttypes.Height
 	signer int
+	epoch  int // number of restarts of the chain when the receive was accepted
 }
 
 type pktWorld struct {
@@ -103,6 +108,8 @@ type pktWorld struct {
 	hist   []string
 	sent   []*pktSent
 	byEnc  map[string]*pktSent // canonical packet bytes -> sent packet
+	evms   []*pktEvm           // EVM-secured counterparties (bsc / eth clients on chain 0)
+	evmBy  map[string]*pktEvm  // host chain name | client name
 	// oracle state
 	accepted map[string]int // chain|receiptkey -> number of accepted receives
 	ackedN   map[string]int // chain|commitkey -> number of accepted acknowledgements
@@ -124,7 +131,7 @@ func pktHasUpper(s string) bool { return strings.ToLower(s) != s }
 
 func pktNewWorld(t *testing.T, r *Rec, mixedCase bool) *pktWorld {
 	w := &pktWorld{t: t, r: r, byName: map[string]*pktChain{}, pktIDs: map[string]string{}, ackIDs: map[string]string{},
-		ackEnc: map[string]bool{}, byEnc: map[string]*pktSent{}, accepted: map[string]int{}, ackedN: map[string]int{}}
+		ackEnc: map[string]bool{}, byEnc: map[string]*pktSent{}, evmBy: map[string]*pktEvm{}, accepted: map[string]int{}, ackedN: map[string]int{}}
 	w.coord = xibctesting.NewCoordinator(t, 3)
 	w.op("reset", "ok")
 	for i := 0; i < 3; i++ {
@@ -475,6 +482,9 @@ func (c *pktChain) sameProof(a, b []byte) bool {
 // state that consensus height h refers to" (semantic), and additionally whether `proof` is the genuine proof of
 // exactly that (path, height) (genuine).
 func (w *pktWorld) truth(c *pktChain, client string, path []byte, value []byte, h clienttypes.Height, proof []byte) (semantic, genuine bool) {
+	if ev, isEvm := w.evmBy[c.name+"|"+client]; isEvm {
+		return ev.truth(path, value, h, proof)
+	}
 	of, ok := c.track[client]
 	if !ok {
 		return false, false
@@ -647,7 +657,9 @@ func (w *pktWorld) send(src *pktChain, dstName string, amount int64, cs pktCallS
 	// chain 1, see setupToken) onRecvPacket returns result code 2 before the call data is looked at
 	cbErr := cs.cbErr && (len(p.TransferData) == 0 || !(w.byName[dstName] == w.chains[2] && src == w.chains[1]))
 	s := &pktSent{bz: pk[0], p: p, src: src, dst: w.byName[dstName], sentAt: src.tc.CurrentHeader.Height, mech: cs.mech, cbErr: cbErr}
-	w.sent = append(w.sent, s)
+	if s.dst != nil { // packets to an EVM-secured counterparty are tracked by pktEvm.out
+		w.sent = append(w.sent, s)
+	}
 	if enc, err := p.ABIPack(); err == nil {
 		w.byEnc[string(enc)] = s
 	}
@@ -693,6 +705,63 @@ func (w *pktWorld) plant(src, dst *pktChain, seq uint64, amount int64) *pktSent 
 	w.sent = append(w.sent, s)
 	w.byEnc[string(bz)] = s
 	return s
+}
+
+// restart takes chain c through what a node restart from an exported genesis does to the xibc module: ExportGenesis,
+// JSON round trip, validation, every key of the xibc store deleted, InitGenesis. EVM / bank / account state stays.
+// The model's `restart` is the identity, so the canonical observation must be an empty delta.
+func (w *pktWorld) restart(c *pktChain) bool {
+	tc := c.tc
+	ctx := tc.GetContext()
+	var failed string
+	if pan, msg := safely(func() {
+		gs := xibc.ExportGenesis(ctx, *tc.App.XIBCKeeper)
+		cdc := tc.App.AppCodec()
+		bz, err := cdc.MarshalJSON(gs)
+		if err != nil {
+			failed = "marshal: " + err.Error()
+			return
+		}
+		var gs2 xibctypes.GenesisState
+		if err := cdc.UnmarshalJSON(bz, &gs2); err != nil {
+			failed = "unmarshal: " + err.Error()
+			return
+		}
+		if err := gs2.Validate(); err != nil {
+			failed = "validate: " + err.Error()
+			return
+		}
+		store := ctx.KVStore(tc.App.GetKey(host.StoreKey))
+		var keys [][]byte
+		it := store.Iterator(nil, nil)
+		for ; it.Valid(); it.Next() {
+			keys = append(keys, append([]byte{}, it.Key()...))
+		}
+		it.Close()
+		for _, k := range keys {
+			store.Delete(k)
+		}
+		xibc.InitGenesis(ctx, *tc.App.XIBCKeeper, false, &gs2)
+	}); pan {
+		failed = "panic: " + msg
+	}
+	if failed != "" {
+		// the exported genesis of a running chain must be importable; nothing was changed if we get here before the wipe
+		w.r.Count("restart.failed")
+		w.r.Find(Finding{Sig: "pkt:restart-export-not-importable", What: "the exported xibc genesis could not be re-imported: " + failed,
+			Ops: append([]string{}, w.hist...), Obs: failed, Req: "importable"})
+		return false
+	}
+	delta, before, after := c.observe()
+	w.stepOracle(before, after, "")
+	w.op("restart "+hxs(c.name), "ok "+delta)
+	w.r.Count("restart")
+	c.restarts++
+	if delta != "-" {
+		w.r.Find(Finding{Sig: "C01:restart-moved-packet-state", What: "receipts / acknowledgements / commitments / send sequences are not under the same keys after a genesis export -> import restart",
+			Ops: append([]string{}, w.hist...), Obs: delta, Req: "-"})
+	}
+	return true
 }
 
 // updateClient delivers a genuine MsgUpdateClient for client `name` of chain c (signed by acct) with the last
@@ -1036,3 +1105,6 @@ func enc0(p packettypes.Packet) []byte {
 	b, _ := p.ABIPack()
 	return b
 }
+
+func erc20ABI() abi.ABI { return erc20contracts.ERC20MinterBurnerDecimalsContract.ABI }
+func erc20Bin() []byte  { return erc20contracts.ERC20MinterBurnerDecimalsContract.Bin }
